@@ -77,9 +77,12 @@ package server
 //@ trusted pure
 //@ func (se *SSEnv) GetFinalDir [C20]
 //@ trusted pure
+// gFlagRemovedIdx: the index of the snapshot whose flag file was removed last
+//@ ghost var gFlagRemovedIdx int
 //@ func (se *SSEnv) RemoveFlagFile [C16]
 //@ trusted removes the flag file of a final snapshot directory (and syncs the directory)
 //@ ghostset gFlagRemoved := true
+//@ ghostset gFlagRemovedIdx := se.index
 //@ func (se *SSEnv) SaveSSMetadata [C16]
 //@ trusted writes the metadata file into the temporary directory
 //@ func (se *SSEnv) RemoveFinalDir [C16]
